@@ -42,6 +42,15 @@ def load_units():
         for u in getattr(mod, "UNITS", [getattr(mod, "UNIT", None)]):
             if u is not None:
                 units[u.name] = u
+    # Derived tags (a property that rests on another property's invariant inherits the clauses stating it):
+    #  C07 "the coin root is a function of the coins alone" -- the coin tree also stores the per-address counts, so this holds only while the
+    #  counts are a function of the coins, i.e. C20's invariant counts_ok; every clause that states it carries C07 as well (seed C07g: a faucet
+    #  marker inserted without counting made two chains with equal coins seal different coins_hash; ./check C07 had not even run unit `apply`).
+    for u in units.values():
+        for f in u.fns():
+            for c in f.clauses():
+                if "C20" in c.props and "C07" not in c.props and "counts" in c.text:
+                    c.props = tuple(c.props) + ("C07",)
     return units
 
 
